@@ -563,6 +563,10 @@ pub fn net_json<M: MsgCodec>(n: &Network<M>) -> Value {
     }
 }
 
+pub fn dead_choices<A: Actor, H>(st: &ActorModelState<A, H>) -> usize {
+    st.random_choices.iter().map(|c| c.map.values().filter(|v| v.is_empty()).count()).sum()
+}
+
 pub fn empty_flows<M: MsgCodec>(n: &Network<M>) -> usize {
     match n {
         Network::Ordered(m) => m.values().filter(|q| q.is_empty()).count(),
@@ -591,8 +595,10 @@ where
         .random_choices
         .iter()
         .map(|c| {
+            // (canonical: a key without alternatives enables nothing and is not part of the abstract state; the record
+            //  carries the number of such entries separately, see dead_choices)
             let mut v: Vec<(String, Vec<u8>)> =
-                c.map.iter().map(|(k, v)| (k.clone(), v.iter().map(|x| x.to_u8()).collect())).collect();
+                c.map.iter().filter(|(_, v)| !v.is_empty()).map(|(k, v)| (k.clone(), v.iter().map(|x| x.to_u8()).collect())).collect();
             v.sort();
             json!(v.into_iter().map(|(k, v)| json!({"key": k, "vals": v})).collect::<Vec<_>>())
         })
@@ -764,7 +770,7 @@ pub fn record_graph<A>(
             "edges": edges, "ignored": ignored, "next_steps_ok": next_steps_ok, "len": s.network.len(),
             "iter_all": iter_all, "iter_all_truncated": iter_all_truncated, "iter_deliv": iter_deliv,
             "stream": stream_of(&s), "has_rep": has_rep, "rep_panicked": rep_panicked, "rep": rep_json,
-            "empty_flows": empty_flows(&s.network), "eq_ok": eq_ok});
+            "empty_flows": empty_flows(&s.network), "dead_choices": dead_choices(&s), "eq_ok": eq_ok});
         serde_json::to_writer(&mut *out, &rec).unwrap();
         out.write_all(b"\n").unwrap();
     }
